@@ -2,6 +2,8 @@ package rules
 
 import (
 	"fmt"
+	"go/token"
+	"go/types"
 	"sort"
 	"strings"
 
@@ -185,9 +187,80 @@ func (c *Ctx) checkPermPredicate(m *contractsModel, fn *ssa.Function, pf *permFn
 			if core.Direct(isReg)(a) {
 				return true
 			}
+			// a method of a context struct that carries the regulator address (chk := &regulatorCheck{addr: regulatorAddr};
+			// chk.isAdminOfAppchain(id)): the struct is built in this function and one of its fields holds the parameter
+			if al, ok := core.Strip(a).(*ssa.Alloc); ok && al.Parent() == fn {
+				for _, ref := range *al.Referrers() {
+					if fa, ok := ref.(*ssa.FieldAddr); ok && fa.X == ssa.Value(al) {
+						for _, r2 := range *fa.Referrers() {
+							if st, ok := r2.(*ssa.Store); ok && st.Addr == ssa.Value(fa) && core.Direct(isReg)(st.Val) {
+								return true
+							}
+						}
+					}
+				}
+			}
 		}
 		return false
 	}))
+	// `allowed, err = chk.isX(..)` in the arms of a switch, tested once behind it: the condition is a phi of the boolean
+	// results of delegated predicates about the regulator (or false)
+	aboutReg := func(cl *ssa.Call) bool {
+		for _, a := range cl.Call.Args {
+			if core.Direct(isReg)(a) {
+				return true
+			}
+			if al, ok := core.Strip(a).(*ssa.Alloc); ok && al.Parent() == fn {
+				for _, ref := range *al.Referrers() {
+					if fa, ok := ref.(*ssa.FieldAddr); ok && fa.X == ssa.Value(al) {
+						for _, r2 := range *fa.Referrers() {
+							if st, ok := r2.(*ssa.Store); ok && st.Addr == ssa.Value(fa) && core.Direct(isReg)(st.Val) {
+								return true
+							}
+						}
+					}
+				}
+			}
+		}
+		return false
+	}
+	for _, b := range fn.Blocks {
+		ifi := core.IfOf(b)
+		if ifi == nil {
+			continue
+		}
+		cond, edge := ifi.Cond, 0
+		if un, ok := cond.(*ssa.UnOp); ok && un.Op == token.NOT {
+			cond, edge = un.X, 1
+		}
+		ph, ok := cond.(*ssa.Phi)
+		if !ok || len(ph.Edges) == 0 {
+			continue
+		}
+		all := true
+		for _, e := range ph.Edges {
+			if k, isK := e.(*ssa.Const); isK && k.Value != nil && k.Value.ExactString() == "false" {
+				continue
+			}
+			ex, isEx := e.(*ssa.Extract)
+			if !isEx {
+				all = false
+				break
+			}
+			cl, isCall := ex.Tuple.(*ssa.Call)
+			if !isCall || !aboutReg(cl) {
+				all = false
+				break
+			}
+			if bt, isB := ex.Type().Underlying().(*types.Basic); !isB || bt.Kind() != types.Bool {
+				all = false
+				break
+			}
+		}
+		if all {
+			es.Add(b, edge)
+		}
+	}
 	cut := core.CutOf(es)
 	rs := core.Reach([]core.Point{core.EntryOf(fn)}, nil, cut)
 	key := core.FnName(fn)
